@@ -83,7 +83,11 @@ class _Tagged:
 
 
 class TCost(_Tagged, TableCost):
-    pass
+    """the fixed parameter's value is part of the variable names, so a stale parameter shows"""
+
+    def _evaluate(self, cuts):
+        mode = "o" if self.param is None else "f" + str(self.param).replace(".", "d").replace("-", "m")
+        return self._table_eval(cuts, self.tag + mode)
 
 
 class TChange(_Tagged, TableChangeScore):
@@ -245,7 +249,7 @@ def make_det(det, n, p, group="same_train", wrap=False):
     def run(eng, acc):
         snapshot = [v for v in A.ravel()]
         for hname, ops, train in HISTORIES:
-            if (train == "A") != (group == "same_train") or group == "update":
+            if (train == "A") != (group == "same_train") or group in ("update", "nested"):
                 continue
             inf = dict(info, history=hname, ops=ops)
             try:
@@ -304,6 +308,28 @@ def make_det(det, n, p, group="same_train", wrap=False):
             pass
         except Exception as ex:
             acc.concrete("history.runs", False, dict(info, history="set_params", exception=f"{type(ex).__name__}: {ex}"[:200]), eng=eng)
+        # nested set_params (component__param) on a detector built from a cost == a fresh detector built with that value
+        try:
+            if not wrap or group != "nested":
+                raise StopIteration
+            d, sc = build(det, wrap=True)
+            if det in ("CAPA", "MVCAPA"):
+                d.set_params(collective_saving__param=1.0, point_saving__param=1.0)
+                fresh_sc = [TCost(param=1.0, any_p=True), TCost(param=1.0, tag="q", any_p=True)]
+            else:
+                key = {"MovingWindow": "change_score", "SBS": "change_score", "CBS": "anomaly_score"}[det]
+                d.set_params(**{key + "__tag": "Z"})
+                fresh_sc = [TCost(tag="Z", any_p=True)]
+            d.fit(data["A"])
+            got = observe(d, data["A"], "predict")
+            r, _ = build(det, scorers=fresh_sc, wrap=True)
+            r.fit(data["A"])
+            acc.concrete("set_params.nested_component_parameter_takes_effect", same_obs(got, observe(r, data["A"], "predict")),
+                         dict(info, history="nested_set_params", got=str(got)[:160]), eng=eng)
+        except StopIteration:
+            pass
+        except Exception as ex:
+            acc.concrete("history.runs", False, dict(info, history="nested_set_params", exception=f"{type(ex).__name__}: {ex}"[:200]), eng=eng)
         # update(new pandas data) == fit(old and new combined)
         try:
             if group != "update":
@@ -327,6 +353,27 @@ def make_det(det, n, p, group="same_train", wrap=False):
         acc.sample(dict(info, histories=[h[0] for h in HISTORIES] + ["set_params", "update"]))
 
     return Harness(run, base, name=f"det {info}")
+
+
+def _params_of(d):
+    """the parameter values of every table cost reachable from the detector's private scorers"""
+    out = []
+    seen = set()
+
+    def walk(o, depth=0):
+        if id(o) in seen or depth > 3:
+            return
+        seen.add(id(o))
+        if isinstance(o, TableCost):
+            out.append((o.tag, o.param))
+        if hasattr(o, "__dict__"):
+            for k, v in vars(o).items():
+                if k.startswith("_") and hasattr(v, "get_params"):
+                    walk(v, depth + 1)
+                elif hasattr(v, "get_params") and depth > 0:
+                    walk(v, depth + 1)
+    walk(d)
+    return sorted(map(str, out))
 
 
 def _all_table_scorers(d):
@@ -410,6 +457,7 @@ def jobs(tier):
             out.append(Job(M, "make_det", dict(det=det, n=n, p=p, group=group), split=True))
     for (det, n) in ([("MovingWindow", 4), ("SBS", 3), ("CAPA", 3)] if tier == "quick" else [("MovingWindow", 5), ("SBS", 4), ("CBS", 4), ("CAPA", 3), ("MVCAPA", 2)]):
         out.append(Job(M, "make_det", dict(det=det, n=n, p=1, group="same_train", wrap=True), split=True))
+        out.append(Job(M, "make_det", dict(det=det, n=n, p=1, group="nested", wrap=True), split=True))
     for (n, p) in sc:
         out.append(Job(M, "make_scorers", dict(n=n, p=p)))
     return out
@@ -506,6 +554,21 @@ def replay(cx):
                 ref = observe(r, data["A"], ops[-1].split()[-2])
                 if nobs(obs) != nobs(ref):
                     bad.append(f"history {ops}: observed {nobs(obs)[:200]} but a fresh object fitted on {train} gives {nobs(ref)[:200]}")
+            elif hname == "nested_set_params":
+                d, sc = build(det, scale=0.3, wrap=True)
+                if det in ("CAPA", "MVCAPA"):
+                    d.set_params(collective_saving__param=1.0, point_saving__param=1.0)
+                    fresh_sc = [TCost(param=1.0, any_p=True), TCost(param=1.0, tag="q", any_p=True)]
+                else:
+                    key = {"MovingWindow": "change_score", "SBS": "change_score", "CBS": "anomaly_score"}[det]
+                    d.set_params(**{key + "__tag": "Z"})
+                    fresh_sc = [TCost(tag="Z", any_p=True)]
+                # numeric tables must depend on the configured parameter for a stale value to show
+                got = nobs(observe(d.fit(data["A"]), data["A"], "transform_scores")) + nobs(_params_of(d))
+                r, _ = build(det, scorers=fresh_sc, scale=0.3, wrap=True)
+                ref = nobs(observe(r.fit(data["A"]), data["A"], "transform_scores")) + nobs(_params_of(r))
+                if got != ref:
+                    bad.append(f"after nested set_params the detector computes with {got[:200]}, a fresh detector built with the new value with {ref[:200]}")
             elif hname == "update":
                 A1 = pd.DataFrame(rngB.integers(-4, 5, size=(5, p)).astype(float))
                 Anew = pd.DataFrame(Af.values, index=pd.RangeIndex(5, 5 + n))
